@@ -287,6 +287,26 @@ create_1d_filter (int              width,
 
 	/* Normalize, with error diffusion */
 	p -= width;
+
+	if (total == 0.0)
+	{
+	    /* No tap of this phase received any weight (kernels whose
+	     * support has measure zero, such as IMPULSE, can miss every
+	     * sample position).  Fall back to point sampling: the tap
+	     * nearest to the sample position gets the whole weight, so
+	     * that the phase still sums to one.
+	     */
+	    int nearest = (int) floor (frac - x1);
+
+	    if (nearest < 0)
+		nearest = 0;
+	    if (nearest > width - 1)
+		nearest = width - 1;
+
+	    p[nearest] = pixman_fixed_1;
+	    total = pixman_fixed_1;
+	}
+
         total = 65536.0 / total;
         new_total = 0;
 	e = 0.0;
@@ -312,7 +332,10 @@ create_1d_filter (int              width,
 static int
 filter_width (pixman_kernel_t reconstruct, pixman_kernel_t sample, double size)
 {
-    return ceil (filters[reconstruct].width + size * filters[sample].width);
+    int width = ceil (filters[reconstruct].width + size * filters[sample].width);
+
+    /* A filter has at least one tap (IMPULSE with IMPULSE has zero support) */
+    return width < 1 ? 1 : width;
 }
 
 #ifdef PIXMAN_GNUPLOT
